@@ -450,7 +450,8 @@ pub fn build(family: &str, tier: Tier) -> Vec<Cfg> {
                     let mut c = Cfg::base("keepalive", &format!("k{:?}-s{:?}-ping{}", client_k, server_k, ping_ms));
                     c.keep_alive = client_k; c.connack.server_keep_alive = server_k;
                     c.ping_timeout = Duration::from_millis(ping_ms);
-                    c.submits = vec![spec("pub1", publish("t", 1)), spec("pub0", publish("t", 0))];
+                    // the third operation carries an ack timeout that expires after the first ping deadline for small K and before it for large K
+                    c.submits = vec![spec("pub1", publish("t", 1)), spec("pub0", publish("t", 0)), spec_t("pub1-5000", publish("u", 1), 5000)];
                     c.max_submits = if thorough { 3 } else { 2 };
                     c.max_conns = 1;
                     c.budget = if thorough { 3 } else { 2 };
@@ -533,6 +534,17 @@ pub fn build(family: &str, tier: Tier) -> Vec<Cfg> {
                         out.push(c);
                     }
                 }
+            }
+            // an LRU resolver built smaller than the server's Topic Alias Maximum, with a working set above its size
+            for (size, server_max) in [(2u16, 3u16), (2, 10), (1, 2)] {
+                if !thorough && server_max == 10 { continue; }
+                let mut c = Cfg::base("alias", &format!("lru{}-server-max{}", size, server_max));
+                c.resolver = ResolverKind::Lru(size);
+                c.connack.topic_alias_maximum = Some(server_max);
+                let plain = |topic: &str| Pkt::Publish(VPublish { topic: topic.into(), qos: 0, ..Default::default() });
+                c.submits = vec![spec("a", plain("a")), spec("b", plain("b")), spec("c", plain("c")), spec("d", plain("d"))];
+                c.max_submits = 5; c.max_conns = 1; c.budget = 0; c.max_depth = 30;
+                out.push(c);
             }
             // an aliased publish interrupted half-written (tiny buffer): its binding was never completely transmitted
             for resolver in [ResolverKind::Lru(2), ResolverKind::Manual] {
